@@ -22,6 +22,8 @@ type SExpr struct {
 
 func (e *SExpr) String() string {
 	switch e.Kind {
+	case "str":
+		return strconv.Quote(e.Val)
 	case "int", "float", "ident":
 		return e.Val
 	case "unary":
@@ -80,6 +82,16 @@ func lexSpec(s string) ([]tok, error) {
 				out = append(out, tok{"int", s[i:j]})
 			}
 			i = j
+		case c == '"':
+			j := i + 1
+			for j < len(s) && s[j] != '"' {
+				j++
+			}
+			if j >= len(s) {
+				return nil, fmt.Errorf("spec lexer: unterminated string in %q", s)
+			}
+			out = append(out, tok{"str", s[i+1 : j]})
+			i = j + 1
 		case c == '_' || c >= 'a' && c <= 'z' || c >= 'A' && c <= 'Z':
 			j := i
 			for j < len(s) && (s[j] == '_' || s[j] == '#' || s[j] >= 'a' && s[j] <= 'z' || s[j] >= 'A' && s[j] <= 'Z' || s[j] >= '0' && s[j] <= '9') {
@@ -318,6 +330,8 @@ func (p *sparser) primary() *SExpr {
 		return &SExpr{Kind: "int", Val: t.v}
 	case "float":
 		return &SExpr{Kind: "float", Val: t.v}
+	case "str":
+		return &SExpr{Kind: "str", Val: t.v}
 	case "ident":
 		return &SExpr{Kind: "ident", Val: t.v}
 	case "op":
